@@ -242,6 +242,17 @@ def call_builtin(ev, name, args, kwargs, node):
             return ev.getattr(o, n.value, node)
         ev.event("reflect", obj=o, name=n, node=node)
         return App("getattr", (as_v(ev, o), n), ()) if isinstance(n, V) else Top("getattr")
+    if name == "property":
+        from .evalr import PropV
+        fget = args[0] if args else kwargs.get("fget")
+        fset = args[1] if len(args) > 1 else kwargs.get("fset")
+        if isinstance(fset, Const) and fset.value is None:
+            fset = None
+        if fget is not None:
+            return PropV(fget, fset)
+    if name == "setattr" and len(args) == 3 and isinstance(args[1], Const) and isinstance(args[1].value, str):
+        ev.setattr(args[0], args[1].value, args[2], node)
+        return Const(None)
     if name == "hasattr":
         return App("hasattr", (as_v(ev, args[0]), as_v(ev, args[1])))
     if name == "type":
@@ -307,6 +318,8 @@ def call_builtin(ev, name, args, kwargs, node):
     if name in ("set", "frozenset"):
         if not args:
             return App("set", ())
+        if isinstance(args[0], App) and args[0].fn == "set":
+            return args[0]
         c = ev.concrete_items(args[0])
         if c is not None:
             uniq = []
@@ -956,8 +969,8 @@ def getitem(ev, base, idx, node=None):
     if isinstance(base, Dct):
         if idx in base.items:
             return base.items[idx]
-        if not base.unknown and isinstance(idx, Const):
-            raise RaiseSignal(App("KeyError", (idx,)), node)
+        if not base.unknown and (not base.items or (isinstance(idx, Const) and all(isinstance(k, Const) for k in base.items))):
+            raise RaiseSignal(App("KeyError", (as_v(ev, idx),)), node)
         return App("dict.getitem", (as_v(ev, base), as_v(ev, idx)))
     if isinstance(base, Lst):
         if is_const(idx) and not base.pappends and not base.unknown:
